@@ -4,7 +4,7 @@
    listed sample list has exactly `amount` members, all valid. *)
 From Coq Require Import List ZArith QArith Bool Lia Permutation.
 From DD Require Import Model.Circuit Model.Query Model.Enumerate
-     Proofs.PassLemmas Proofs.Enum Proofs.CountsA Proofs.C07Defs Proofs.C07Valid Proofs.C07IdealDefs
+     Proofs.PassLemmas Proofs.Enum Proofs.CountsA Proofs.Live Proofs.LiveCounts Proofs.C07Defs Proofs.C07Valid Proofs.C07IdealDefs
      Proofs.C07Align Proofs.C07GeneralDefs Proofs.C07GeneralDist.
 Import ListNotations.
 Open Scope Z_scope.
@@ -106,35 +106,45 @@ Qed.
 Lemma true_cnt c : (c < length C)%nat -> nth c C FalseN = TrueN -> cnt c = 1.
 Proof. intros Hc E. now rewrite (countsA_unfold A C c 0 Hok Hc), E. Qed.
 
-Lemma live_cnt c : (c < length C)%nat -> nth c ts 0 <> 0 -> nth c C FalseN <> TrueN -> cnt c <> 0.
-Proof. intros Hc Ht Hn. now rewrite <- (Hts c Hc Hn). Qed.
+Lemma live_cnt c : (c < length C)%nat -> nth c ts 0 <> 0 -> nth c C FalseN <> TrueN -> Reach C c ->
+  cnt c <> 0.
+Proof. intros Hc Ht Hn HR. now rewrite <- (Hts c Hc Hn HR). Qed.
+
+(* the children of a reachable node with a non-zero count under A are reachable *)
+Lemma reach_children i : (i < length C)%nat -> Reach C i -> cnt i <> 0 ->
+  forall c, In c (children (nth i C FalseN)) -> Reach C c.
+Proof.
+  intros Hi HR Hcnt c Hc. apply (reach_child C i c HR Hi); [|exact Hc].
+  exact (count_of_countsA_nonzero C Hok A i Hi Hcnt).
+Qed.
 
 Lemma jointk_runs : forall i, (i < length C)%nat ->
-  forall f, (i < f)%nat -> forall a, 0 <= a -> a = 0 \/ cnt i <> 0 -> node_runs f a i.
+  forall f, (i < f)%nat -> Reach C i -> forall a, 0 <= a -> a = 0 \/ cnt i <> 0 -> node_runs f a i.
 Proof.
-  apply (idx_induction C (fun i => forall f, (i < f)%nat -> forall a, 0 <= a ->
+  apply (idx_induction C (fun i => forall f, (i < f)%nat -> Reach C i -> forall a, 0 <= a ->
                                    a = 0 \/ cnt i <> 0 -> node_runs f a i) Hok).
-  intros i Hi IH f Hif a Ha Hlive r w Hr rest. destruct f as [|f]; [lia|].
+  intros i Hi IH f Hif HR a Ha Hlive r w Hr rest. destruct f as [|f]; [lia|].
   rewrite jointk_S in Hr. rewrite sample_node_c_S.
   destruct (a =? 0) eqn:Ea.
   { apply in_dret in Hr. destruct Hr as [-> _]. reflexivity. }
   apply Z.eqb_neq in Ea. destruct Hlive as [Hlive|Hcnt]; [contradiction|].
   pose proof (idx_ok_nth C i FalseN Hok Hi) as Hch.
   pose proof (countsA_unfold A C i 0 Hok Hi) as Hcu.
+  pose proof (reach_children i Hi HR Hcnt) as HRc.
   destruct (nth i C FalseN) as [l|cs|cs| |] eqn:E; cbn [children countA_node] in *.
   - apply in_dret in Hr. destruct Hr as [-> _]. reflexivity.
   - (* And *)
     destruct (and_foldK_runs f a cs) with (D0 := dret (@nil choice, repeat_n (@nil Z) (Z.to_nat a)))
                                           (r := r) (w := w) as [r0 [w0 [s' [Hr0 [Hs Hfold]]]]].
-    + intros c Hc. specialize (Hch c Hc). apply IH; [exact Hc|lia|exact Ha|]. right.
+    + intros c Hc. specialize (Hch c Hc). apply IH; [exact Hc|lia|exact (HRc c Hc)|exact Ha|]. right.
       rewrite Hcu in Hcnt. apply (zprod_nonzero _ Hcnt). apply in_map_iff. now exists c.
     + exact Hr.
     + apply in_dret in Hr0. destruct Hr0 as [-> _]. cbn [fst snd app] in Hs, Hfold.
       rewrite Hs. apply Hfold.
   - (* Or *)
-    assert (Hti : nth i ts 0 = cnt i) by (apply Hts; [exact Hi|congruence]).
+    assert (Hti : nth i ts 0 = cnt i) by (apply Hts; [exact Hi|congruence|exact HR]).
     assert (Ha1 : 1 <= a) by lia.
-    destruct (HSL i cs a Hi E Ha1 ltac:(congruence)) as [Hsup _].
+    destruct (HSL i cs a Hi E Ha1 ltac:(congruence) HR) as [Hsup _].
     apply in_dbind in Hr. destruct Hr as [v [w1 [w2 [Hv [Hr _]]]]].
     apply in_dbind in Hr. destruct Hr as [r1 [w3 [w4 [Hr1 [Hr _]]]]].
     apply in_dbind in Hr. destruct Hr as [p [w5 [w6 [Hp [Hr _]]]]].
@@ -146,8 +156,8 @@ Proof.
     rewrite (or_seq_runs f v cs) with (w := w3); [| |exact Hnn|exact Hr1].
     + cbn [app take_choice]. rewrite Hsp, Hlv, Nat.eqb_refl. fold (pad a (snd r1)).
       rewrite Hlen, Nat.eqb_refl, Hperm. reflexivity.
-    + intros c a' Hc Ha' Ht. specialize (Hch c Hc). apply IH; [exact Hc|lia|exact Ha'|]. right.
-      destruct (nth c C FalseN) eqn:Ec; try (apply live_cnt; [lia|exact Ht|congruence]).
+    + intros c a' Hc Ha' Ht. specialize (Hch c Hc). apply IH; [exact Hc|lia|exact (HRc c Hc)|exact Ha'|]. right.
+      destruct (nth c C FalseN) eqn:Ec; try (apply live_cnt; [lia|exact Ht|congruence|exact (HRc c Hc)]).
       rewrite true_cnt; [lia|lia|exact Ec].
   - apply in_dret in Hr. destruct Hr as [-> _]. reflexivity.
   - apply in_dret in Hr. destruct Hr as [-> _]. reflexivity.
@@ -155,13 +165,13 @@ Qed.
 
 (* every listed sample list has exactly `a` members, each valid *)
 Lemma jointk_valid i f a r w :
-  (i < length C)%nat -> (i < f)%nat -> 0 <= a -> nth i C FalseN <> TrueN -> cnt i <> 0 ->
+  (i < length C)%nat -> (i < f)%nat -> 0 <= a -> nth i C FalseN <> TrueN -> Reach C i -> cnt i <> 0 ->
   In (r, w) (jointk d ts SL f a i) ->
   length (snd r) = Z.to_nat a /\ Forall (Vp A C i) (snd r).
 Proof.
-  intros Hi Hf Ha Hnt Hcnt Hr.
-  pose proof (jointk_runs i Hi f Hf a Ha (or_intror Hcnt) r w Hr []) as Hrun.
-  exact (sample_node_c_valid d A ts Hok Hts i Hi f Hf Hnt Hcnt a (fst r ++ []) (snd r) [] true true
+  intros Hi Hf Ha Hnt HR Hcnt Hr.
+  pose proof (jointk_runs i Hi f Hf HR a Ha (or_intror Hcnt) r w Hr []) as Hrun.
+  exact (sample_node_c_valid d A ts Hok Hts i Hi f Hf Hnt HR Hcnt a (fst r ++ []) (snd r) [] true true
            Ha Hrun eq_refl eq_refl).
 Qed.
 
